@@ -80,17 +80,21 @@ def job_parseval(res, n, N=4):
     if N == 8: rt = z3.Real('sqrt_half'); st.pc += [rt * rt == Fraction(1, 2), rt > 0]
     P = sym_profiles(ex, st, R, n, 1); Z = sym_impedance(ex, st, R, N)
     paths = run_paths(ex, st.fork(), 'e_csr', [R['field'], Fraction(0)])      # every path of updateCSR: code that decides on the transform's values (drops bins, stops early) forks, and each path must meet Parseval
-    s2 = ex.run1(st.fork(), 'e_wake', [R['field']]); wt = get_reals(ex, s2, R['wp_padded'], N); account(res, ex, mod, paths + [s2])
+    wpaths = run_paths(ex, st.fork(), 'e_wake', [R['field']]); account(res, ex, mod, paths + wpaths)      # likewise every path of wakePotential; the identity is decided for every pair of paths
     dq = Fraction(f32(f32(12.0) / f32(n - 1))); renorm0 = Fraction(f32(float(dq) * float(dq)))
     rho = P + [z3.RealVal(0)] * (N - n)
     F0 = sum(rho[1:], rho[0])
-    rhs = sum([rho[x] * wt[x] for x in range(N)], z3.RealVal(0)) / 2 - Z[0][0] * F0 * F0 / 2
     zs = [c for zz in Z for c in zz]
-    for pi, s1 in enumerate(paths):
+    pairs = [(a, b) for a in paths for b in wpaths]
+    for pi, (s1, s2) in enumerate(pairs):
+        wt = get_reals(ex, s2, R['wp_padded'], N)
+        rhs = sum([rho[x] * wt[x] for x in range(N)], z3.RealVal(0)) / 2 - Z[0][0] * F0 * F0 / 2
         spec = get_reals(ex, s1, s1.retval, N)
         lhs = sum([spec[k] for k in range(1, N // 2)], z3.RealVal(0)) / renorm0
-        pc = list(st.pc) + [c for c in s1.pc if not any(c.eq(d) for d in st.pc)]
-        def cex(m, lhs=lhs, pc=pc):
+        pc = list(st.pc)
+        for c in list(s1.pc) + list(s2.pc):
+            if not any(c.eq(d) for d in pc): pc.append(c)
+        def cex(m, lhs=lhs, rhs=rhs, pc=pc):
             # exact DFT semantics: the model's profile is a real profile.  A second query asks for a counterexample that single precision resolves (bounded inputs, deviation of at least
             # 1 % of the larger side); the first model is kept when that query does not finish.  Either model goes through the native replay.
             s = z3.Solver(); s.add(*pc); s.add(*[z3.And(v >= 0, v <= 4) for v in P]); s.add(*[z3.And(v >= -4, v <= 4) for v in zs])
@@ -98,11 +102,14 @@ def job_parseval(res, n, N=4):
             r, dt = solve(s, 30000); res.queries += 1; res.solver_s += dt
             if r == z3.sat: m = s.model()
             return {'replay': 'parseval', 'n': n, 'N': N, 'rho': [mval(m, v) for v in P], 'z': [mval(m, c) for c in zs], 'lhs': mval(m, lhs), 'rhs': mval(m, rhs), 'resolved': r == z3.sat}
-        prove(res, 'Parseval, n=%d N=%d, exact DFT, path %d of %d of updateCSR: sum over interior frequencies of spectrum/delta_q^2 == 1/2 * sum_x rho_x * (unscaled wake)_x - DC term, for every profile and complex impedance' % (n, N, pi + 1, len(paths)),
+        prove(res, 'Parseval, n=%d N=%d, exact DFT, path pair %d of %d of updateCSR x wakePotential: sum over interior frequencies of spectrum/delta_q^2 == 1/2 * sum_x rho_x * (unscaled wake)_x - DC term, for every profile and complex impedance' % (n, N, pi + 1, len(pairs)),
               pc, lhs != rhs, key='parseval', cex_fn=cex)
+    wt = get_reals(ex, wpaths[0], R['wp_padded'], N)
     witness(res, 'Parseval sides depend on Re Z_1', [], z3.BoolVal(occurs(lhs, Z[1][0])))
     # the Nyquist and upper bins: spectrum above N/2 is zero, the Nyquist bin carries Re Z_{N/2} |F_{N/2}|^2 but does not enter the wake
-    prove(res, 'n=%d N=%d: unscaled wake does not depend on the Nyquist/upper impedance samples' % (n, N), st.pc, z3.Or(*[z3.substitute(w, *[(c, z3.Real(str(c) + 'a')) for k in range(N // 2, N) for c in Z[k]]) != w for w in wt]), key='wake-upper-half-unused')
+    for s2 in wpaths:
+        wt = get_reals(ex, s2, R['wp_padded'], N)
+        prove(res, 'n=%d N=%d: unscaled wake does not depend on the Nyquist/upper impedance samples' % (n, N), list(s2.pc), z3.Or(*[z3.substitute(w, *[(c, z3.Real(str(c) + 'a')) for k in range(N // 2, N) for c in Z[k]]) != w for w in wt]), key='wake-upper-half-unused')
 
 def job_stored_intensity(res, n, N, spacing, buckets):
     """C10's clause "the stored CSR intensity is the sum of the stored spectrum": HDF5File stores bins 0 .. N/2-1 of every bunch's spectrum row (C10 append summaries) and the intensity updateCSR
